@@ -150,9 +150,17 @@ def emitByName {β : Type} (entries : List (String × β)) : List (String × β)
 def subtotalRows (posts : List (String × Amount)) : List (String × Balance) :=
   emitByName (posts.foldl (fun t p => addTotal t p.1 p.2) [])
 
-/-- posts_commodities_iterator::reset (iterators.cc 137-157): the commodities
-    are collected in a `std::set<commodity_t*>` and their price histories are
-    emitted group by group in the order of that set (`prices`, `pricedb`). -/
+/-- The commodities of the journal's postings in order of first appearance (the walk of
+    `journal_posts`, iterators.cc 143-152: push-if-absent into a vector). -/
+def firstAppearance (comms : List Comm) : List Comm := comms.eraseDups
+
+/-- posts_commodities_iterator::reset (iterators.cc 137-163): the commodities of the postings
+    are collected and their price histories are emitted group by group in the order of the
+    collection (`prices`, `pricedb`).  `groups` is the collection in first-appearance order.
+    `Gen.pricesSetOrder` tells what the working tree collects them in: a
+    `std::set<commodity_t*>` ("address": walked in heap address order, the parameter `addr`),
+    a set with a symbol comparator ("name"), or a vector in first-appearance order
+    ("insertion": the order of `groups` itself). -/
 def pricesGroups {β : Type} (addr : Comm → Nat) (groups : List (Comm × β)) : List (Comm × β) :=
   if Gen.pricesSetOrder = "address" then sortBy (fun g => addr g.1) Nat.ble groups
   else if Gen.pricesSetOrder = "name" then sortBy (fun g => g.1) commLe groups
